@@ -54,7 +54,8 @@ Step(k, n) ==
                        /\ LET q == fields[Len(fields)].text
                               e == fields[Len(fields) - 1].text IN
                           IF q # <<>> THEN ~Has(s, q[1])                       \* a quoted value ends at its quote
-                          ELSE IF e # <<>> THEN Len(s) > 0 /\ NoneOf(s, {"sp", "dq", "sq", "gt"})   \* unquoted value
+                          ELSE IF e # <<>> THEN Len(s) > 0 /\ s[1] \notin {"dq", "sq"} /\ NoneOf(s, {"sp", "gt"})
+                                                        \* unquoted value: a quote after its first character belongs to it
                           ELSE s = <<>>                                        \* valueless attribute
                        /\ phase' = "q2"
     [] k = "q2"     -> phase = "q2" /\ s = fields[Len(fields) - 1].text /\ phase' = "attrs"
